@@ -674,14 +674,14 @@ Section Inv.
     - (* Include *)
       destruct (assoc_get (w_templates wd) n) as [t2|] eqn:Et; [|exact I].
       pose proof (wo_templates Hw _ _ Et) as Ht2.
-      match goal with |- context [run W wr wd f t2 ae depth (t_chunk t2) 0 ?inc o] => set (inc0 := inc) end.
+      match goal with |- context [run W wr wd f t2 ae depth (t_root_chunk t2) 0 ?inc o] => set (inc0 := inc) end.
       assert (Hinc : SInv inc0).
       { constructor; cbn; try reflexivity; [constructor|apply scope_of_ok, Hs|apply Hs]. }
       destruct (caps s) as [|c ct] eqn:Ec.
-      + nest IH Ht2 (proj1 (proj2 Ht2)); [exact Hinc|exact Ho|]. destruct P as [_ Ho1]. nx IH Ht Hc; assumption.
+      + nest IH Ht2 (proj1 (proj2 (proj2 Ht2))); [exact Hinc|exact Ho|]. destruct P as [_ Ho1]. nx IH Ht Hc; assumption.
       + pose proof (si_caps _ Hs) as Hcaps. rewrite Ec in Hcaps. cbn [forallb] in Hcaps.
         apply andb_prop in Hcaps. destruct Hcaps as [Hcc Hct].
-        nest IH Ht2 (proj1 (proj2 Ht2)); [exact Hinc|exact Hcc|]. destruct on as [w1|c1]; [exact I|].
+        nest IH Ht2 (proj1 (proj2 (proj2 Ht2))); [exact Hinc|exact Hcc|]. destruct on as [w1|c1]; [exact I|].
         destruct P as [_ Hc1]. cbn [OInv] in Hc1.
         nx IH Ht Hc; [apply SInv_upd_caps; [exact Hs|apply forallb_cons_intro; assumption]|exact Ho].
     - (* BuildMap *)
@@ -770,9 +770,9 @@ Section Inv.
       assert (Hs1 : SInv (upd_blocks s ((n, bchunk :: lin_rest, 0) :: blocks s) (Some n))).
       { apply SInv_upd_blocks; [exact Hs|constructor; [exact Hl|apply Hs]]. }
       dm.
-      + nest IH Ht Hbc; [exact Hs1|reflexivity|]. destruct on as [w1|text]; [exact I|].
+      + nest IH Ht Hbc; [apply SInv_upd_caps; [exact Hs1|reflexivity]|reflexivity|]. destruct on as [w1|text]; [exact I|].
         destruct P as [Hs2 Htext]. cbn [OInv] in Htext.
-        nx IH Ht Hc; [apply SInv_upd_block_buffer; [apply SInv_upd_blocks; [exact Hs2|apply blocks_tl, Hs2]|exact Htext]|exact Ho].
+        nx IH Ht Hc; [apply SInv_upd_block_buffer; [apply SInv_upd_caps; [apply SInv_upd_blocks; [exact Hs2|apply blocks_tl, Hs2]|apply Hs]|exact Htext]|exact Ho].
       + nest IH Ht Hbc; [exact Hs1|exact Ho|]. destruct P as [Hs2 Ho2].
         nx IH Ht Hc; [apply SInv_upd_blocks; [exact Hs2|apply blocks_tl, Hs2]|exact Ho2].
     - (* Jump *) nx IH Ht Hc; assumption.
